@@ -17,10 +17,10 @@ func init() {
 		Explanation: "Ownership and flow rules of the three buffers on the decrypted read path, each necessary for loss-free delivery: " +
 			"(R1) a buffering reader over the raw socket must be kept in a field of the Connection and that field is what Decrypt reads from — a per-call buffered reader loses what it read ahead; " +
 			"(R2) typestate of the remainder buffer: after the Read on it, every path that keeps the buffer for the next call has passed a 'not drained' test (and the concrete reader types " +
-			"Decrypt returns support that test), or no path returns the buffer's EOF to the caller; (R3) plaintext accumulated before a stream-read error is not dropped (known finding, " +
-			"the decrypter contract returns whole messages); (R4) the remainder is overwritten only when empty; (R5) frame pieces are read completely (shared with C06-R4).",
+			"Decrypt returns support that test), or no path returns the buffer's EOF to the caller; (R3) plaintext accumulated before a stream-read error is not dropped (repaired by d195882: " +
+			"Decrypt consumes one frame per call, so nothing is accumulated across reads); (R4) the remainder is overwritten only when empty; (R5) frame pieces are read completely (shared with C06-R4).",
 		Assumptions: []string{"bufio.Reader, bytes.Buffer semantics"},
-		NotDecided:  []string{"all segmentations x buffer sizes", "latency of waiting for a further frame after a full 1024-byte frame (part of the known finding)"},
+		NotDecided:  []string{"all segmentations x buffer sizes", "timing: how long a read blocks"},
 		Rules: []core.Rule{
 			{ID: "C07-R1", Title: "the read-ahead buffer over the socket outlives the call", Decides: "no byte lost when frames are coalesced into one segment", Floor: 2, Run: c07r1},
 			{ID: "C07-R2", Title: "the remainder buffer is kept only while it has unread data", Decides: "no end-of-stream while the peer is connected", Floor: 2, Run: c07r2},
